@@ -64,10 +64,23 @@ def load_findings():
     return {f["key"]: f for f in data.get("findings", [])}
 
 
+def hash_seed(seed, shard):
+    """String-hash configuration of a shard: fixed (so a run is reproducible) but not the same everywhere, so that code whose
+    result depends on set / dict-of-str iteration order meets several orders."""
+    return str((seed * 7 + shard) % 6)
+
+
 def run_workers(prop, tier, seed, nshards, repo, timeout, outdir, replay=None):
     procs = []
-    env = worker_env(repo)
     for sh in range(nshards):
+        env = worker_env(repo)
+        env["PYTHONHASHSEED"] = hash_seed(seed, sh)
+        if replay:
+            try:
+                v = json.load(open(replay))
+                env["PYTHONHASHSEED"] = hash_seed(int(v.get("seed", 0)), int(v.get("shard", 0)))
+            except Exception:  # noqa
+                pass
         out = os.path.join(outdir, "shard%02d.json" % sh)
         if os.path.exists(out):
             os.remove(out)
